@@ -1,2 +1,216 @@
-//! C02 — a forwarding node never loses money on an HTLC it forwards. (stub, being built)
-fn main() {}
+//! C02 — a forwarding node never loses money on an HTLC it forwards.
+use netsim::ext_c02::*;
+use netsim::ops::*;
+use netsim::oracle_commit::*;
+use netsim::rec::install_recording_signer;
+use netsim::sim::*;
+use proptest::prelude::*;
+use serde::{Deserialize, Serialize};
+use serde_json::json;
+use vcore::*;
+
+#[derive(Clone, Debug, Serialize, Deserialize)]
+struct Case {
+	spec: WorldSpec,
+	ops: Vec<COp>,
+	/// at the final settle a payment the recipient still holds is claimed (true) or failed back
+	resolutions: Vec<bool>,
+}
+
+fn offchain_weights() -> CWeights {
+	CWeights {
+		fwd: 14,
+		fwd_ready: 16,
+		claim: 14,
+		fail: 5,
+		deliver: 40,
+		flush: 3,
+		events: 12,
+		forwards: 12,
+		pump: 6,
+		disconnect: 4,
+		reconnect: 8,
+		timer: 1,
+		async_b: 10,
+		complete_b: 12,
+		snapshot_b: 8,
+		restart_b: 5,
+		force_close: 0,
+		mine: 2,
+		mine_to: 0,
+	}
+}
+
+fn onchain_weights() -> CWeights {
+	CWeights { force_close: 5, mine: 10, mine_to: 5, restart_b: 4, deliver: 30, ..offchain_weights() }
+}
+
+fn topologies() -> Vec<Topology> {
+	vec![Topology::Line3, Topology::Line3, Topology::Line3, Topology::Line4, Topology::Line3Parallel]
+}
+
+fn strat(w: CWeights, min_ops: usize, max_ops: usize) -> impl Strategy<Value = Case> {
+	(world_spec(topologies()), proptest::collection::vec(cop_strategy(w), min_ops..max_ops), proptest::collection::vec(proptest::bool::weighted(0.75), 1..6))
+		.prop_map(|(spec, ops, resolutions)| Case { spec, ops, resolutions })
+}
+
+fn cpu_ms() -> u64 {
+	let mut ts = libc::timespec { tv_sec: 0, tv_nsec: 0 };
+	unsafe { libc::clock_gettime(libc::CLOCK_THREAD_CPUTIME_ID, &mut ts) };
+	ts.tv_sec as u64 * 1000 + ts.tv_nsec as u64 / 1_000_000
+}
+
+thread_local! {
+	static PHASES: std::cell::RefCell<[u64; 4]> = std::cell::RefCell::new([0; 4]);
+}
+
+fn oracle(c: &Case, ctx: &mut Ctx) -> CaseResult {
+	let t0 = std::time::Instant::now();
+	let c0 = cpu_ms();
+	let mut sim = c.spec.build(false);
+	let t1 = t0.elapsed();
+	let mut r = oracle_inner(c, ctx, &mut sim);
+	// development aids (never set by ./check): timing report, and exclusion of failure keys under triage
+	if std::env::var("VERIF_C02_TIMING").is_ok() {
+		let ph = PHASES.with(|p| *p.borrow());
+		vcore::report(&format!("[cpu] total {} build {} ops {} settle {} finish {} blocks {} ops {}", cpu_ms() - c0, ph[0].saturating_sub(c0), ph[1] - ph[0], ph[2] - ph[1], ph[3] - ph[2], sim.chain.height(), c.ops.len()));
+	}
+	if std::env::var("VERIF_C02_TIMING").is_ok() && t0.elapsed().as_millis() > 1500 {
+		vcore::report(&format!("[timing] case took {} ms (build {} ms), {} ops, height {}, pending: {}", t0.elapsed().as_millis(), t1.as_millis(), c.ops.len(), sim.chain.height(), sim.c02_chain_work_desc().chars().take(400).collect::<String>()));
+	}
+	if let (Err(f), Ok(ex)) = (&r, std::env::var("VERIF_C02_EXCLUDE")) {
+		if ex.split(',').any(|k| k == f.key) {
+			ctx.label(&format!("excluded-under-triage:{}", f.key));
+			r = Ok(());
+		}
+	}
+	if ctx.replay && (r.is_err() || std::env::var("VERIF_C02_TRACE").is_ok()) {
+		println!("==== history ====\n{}", dump_history(&sim));
+	}
+	r
+}
+
+fn foreign(ctx: &mut Ctx, prop: &str, f: Failure) -> CaseResult {
+	ctx.label(&format!("foreign-failure:{}:{}", prop, f.oracle));
+	if std::env::var("VERIF_DEBUG_FOREIGN").is_ok() {
+		return Err(f);
+	}
+	Ok(())
+}
+
+fn oracle_inner(c: &Case, ctx: &mut Ctx, sim: &mut Sim) -> CaseResult {
+	PHASES.with(|p| p.borrow_mut()[0] = cpu_ms());
+	sim.snapshot_manager(B);
+	let mut co = CommitOracle::new(sim);
+	co.allow_force_close = true;
+	let mut fo = FwdOracle::new(sim);
+	let mut tags: Vec<&'static str> = vec![];
+	for op in c.ops.iter() {
+		let tag = apply_c02(sim, &c.spec, op);
+		tags.push(tag);
+		if tag == "restart-failed" {
+			// a restart from legally persisted state that does not deserialize is C10's verdict
+			return foreign(ctx, "C10", Failure::new("restart-deserialization", format!("{:?}", sim.last_restart_error)));
+		}
+		fo.step(sim)?;
+		if let Err(f) = co.step(sim) {
+			return foreign(ctx, "C01", f);
+		}
+	}
+	if ctx.replay {
+		println!("==== ops applied: {:?}", tags);
+	}
+	PHASES.with(|p| p.borrow_mut()[1] = cpu_ms());
+	let (quiet, mined) = sim.c02_settle(c.spec.deferred, &c.resolutions, 700);
+	fo.step(sim)?;
+	if let Err(f) = co.step(sim) {
+		return foreign(ctx, "C01", f);
+	}
+	if let Some(e) = &fo.model_error {
+		ctx.label("model-lost-track");
+		if std::env::var("VERIF_DEBUG_FOREIGN").is_ok() {
+			return Err(Failure::new("bolt2-model", e.clone()));
+		}
+	}
+	PHASES.with(|p| p.borrow_mut()[2] = cpu_ms());
+	if quiet {
+		fo.finish(sim, &c.spec)?;
+	} else {
+		ctx.label("not-quiescent");
+	}
+	PHASES.with(|p| p.borrow_mut()[3] = cpu_ms());
+	let st = fo.stats.clone();
+	let dist = fo.disturbed_fulfilled(sim);
+	ctx.label(match c.spec.topo {
+		Topology::Line4 => "topo:line4",
+		Topology::Line3Parallel => "topo:line3-parallel",
+		_ => "topo:line3",
+	});
+	ctx.label(match c.spec.ctype {
+		CType::Static => "type:static_remote_key",
+		CType::Anchors => "type:anchors_zero_fee_htlc",
+		CType::ZeroFee => "type:zero_fee_commitments",
+	});
+	ctx.label_if(st.forwarded > 0, "forwarded");
+	ctx.label_if(st.refused_forwards > 0, "forward-refused-and-failed-back");
+	ctx.label_if(st.fee_edge[0] > 0, "forwarded-at-exact-policy-fee");
+	ctx.label_if(st.delta_edge[0] > 0, "forwarded-at-exact-policy-delta");
+	ctx.label_if(st.learned_msg > 0, "preimage-learned-by-message");
+	ctx.label_if(st.learned_chain > 0, "preimage-learned-from-chain");
+	ctx.label_if(st.up_fulfilled_msg > 0, "upstream-fulfilled-by-message");
+	ctx.label_if(st.up_fulfilled_chain > 0, "upstream-claimed-on-chain");
+	ctx.label_if(st.up_failed_after_offchain_removal > 0, "upstream-failed-after-offchain-removal");
+	ctx.label_if(st.up_failed_after_onchain > 0, "upstream-failed-after-onchain-resolution");
+	ctx.label_if(st.fee_events_checked > 0, "payment-forwarded-fee-checked");
+	ctx.label_if(st.restarts_b > 0, "restarted-B");
+	ctx.label_if(st.chans_onchain > 0, "channel-resolved-on-chain");
+	ctx.label_if(st.dust_forfeits > 0, "upstream-dust-forfeited");
+	ctx.label_if(dist[1] > 0, "disturbance:async-update-in-flight-at-fulfil");
+	ctx.label_if(dist[2] > 0, "disturbance:disconnect");
+	ctx.label_if(dist[3] > 0, "disturbance:restart");
+	ctx.label_if(dist[4] > 0, "disturbance:on-chain");
+	ctx.label_if(c.spec.deferred, "deferred-chain-monitor");
+	ctx.label_if(mined > 0, "settle-mined-blocks");
+	if quiet && !st.ledger.is_empty() {
+		ctx.label(&format!("ledger:{}", st.ledger));
+	}
+	ctx.sub_evaluations(st.admission_checks + st.learned_msg + st.learned_chain + st.up_failed_after_offchain_removal + st.up_failed_after_onchain);
+	ctx.nontrivial_if(dist[0] > 0);
+	ctx.summary(json!({"topo": format!("{:?}", c.spec.topo), "type": format!("{:?}", c.spec.ctype), "ops": tags, "forwarded": st.forwarded, "refused": st.refused_forwards, "learned": st.learned_msg + st.learned_chain, "blocks_in_settle": mined, "ledger": st.ledger}));
+	Ok(())
+}
+
+const RULE_TAIL: &str = "Oracles per forwarded HTLC pair (matched by payment hash on B's two links): (a) admission against the policy B advertises for the outgoing channel (fee, cltv_expiry_delta, expiry buffer, next hop's limits), refused forwards are failed back and reported; (b) once B learned the preimage (update_fulfill_htlc on an open channel, or a mined downstream preimage spend) the upstream HTLC ends fulfilled (message committed, or preimage spend of the upstream HTLC output) in the continuation driven to quiescence with uncensored mining; (c) an upstream update_fail_htlc is preceded by the downstream HTLC's irrevocable removal by failure (BOLT-2 model) or by an on-chain resolution without preimage buried ANTI_REORG_DELAY deep; (d) crash points: restarts of B from durable monitor images and any earlier manager snapshot, after which (b) must still hold; (e) B's msat total over its channels (model balances; on chain: monitor reports + spendable outputs + fees) is not below the start, PaymentForwarded fees equal amt_in - amt_out. Non-trivial: a forward whose downstream side was fulfilled and an async update in flight at B at that time, a disconnect, a restart of B, or an on-chain resolution of either link happened before the upstream resolution";
+
+fn main() {
+	install_recording_signer();
+	let mut c = Check::new("C02", "exploration");
+	c.assume("peers of B are unmodified LDK nodes that stay up; messages are delivered FIFO per direction, individually, at generated times");
+	c.assume("Persist follows its documented contract (InProgress at any time, completion in any order, back to synchronous only when nothing is in flight); a restart uses the durable (or latest written) monitor images and any manager snapshot taken earlier");
+	c.assume("the chain is not censored: every block contains everything in the mempool valid for it, blocks reach every node at once, no reorgs; every node handles its events after each block (anchor claims are broadcast then)");
+	c.assume("the forwarder's documented expiry buffer is LATENCY_GRACE_PERIOD_BLOCKS = 3 beyond the next block height; ANTI_REORG_DELAY = 6");
+	c.assume("trampoline, intercepted and phantom forwards, fee updates and channel config updates are not generated; all channels of a world share one forwarding policy");
+	c.part_with(
+		PartSpec {
+			name: "forward-offchain",
+			rule: &format!("line A-B-C (also A-B-C-D and two parallel B-C channels), generated world; 12..N operations: sends through B in both directions with the hop fee (-1/0/+1 msat) and CLTV delta (-1/0/+1) around B's policy, final CLTV deltas around the expiry buffer, amounts around the next hop's minimum / B's outbound limit / dust thresholds; claims and failures by the recipient; individual message deliveries, forwards, events; asynchronous persistence on B's channels with any completion order; disconnects; manager snapshots and restarts of B. {}", RULE_TAIL),
+			quick_cases: 2200,
+			thorough_cases: 70_000,
+			max_shrink: 500,
+		},
+		|| strat(offchain_weights(), 12, 60),
+		oracle,
+	);
+	c.part_with(
+		PartSpec {
+			name: "forward-onchain",
+			rule: &format!("as forward-offchain plus force closes of either link by either end, uncensored mining (conflicting candidates in either order), and mining up to the downstream / upstream expiry of a forwarded HTLC -8..+8 blocks (the next hop claims before, at or after the timeout, or never). {}", RULE_TAIL),
+			quick_cases: 1400,
+			thorough_cases: 45_000,
+			max_shrink: 500,
+		},
+		|| strat(onchain_weights(), 12, 50),
+		oracle,
+	);
+	c.finish();
+}
